@@ -105,7 +105,7 @@ const DEFAULT_MATCH_SCORE: i32 = 2;
 /// by setting the band to contain the full matrix.
 ///
 /// Banded aligner will proceed to compute the alignment only when the total number of cells
-/// in the band is less than MAX_CELLS (currently set to 10 million), otherwise it returns an
+/// in the band does not exceed MAX_CELLS (currently set to 5 million), otherwise it returns an
 /// empty alignment
 #[allow(non_snake_case)]
 #[derive(Default, Clone, Eq, PartialEq, Hash, Debug, Serialize, Deserialize)]
